@@ -58,7 +58,27 @@ fn subset_defs(doc: &Value, names: &[String]) -> Value {
 pub fn gen_c16_case(g: &mut G) -> Value {
     let mut cfg = gs::Cfg::faithful();
     cfg.max_defs = 6;
-    let doc = gs::document(g, &cfg);
+    let mut doc = gs::document(g, &cfg);
+    // some definition keys are not already the Rust type name (snake / kebab / lower case)
+    if g.chance(1, 2) {
+        let names = gs::def_names(&doc);
+        let n = g.pick(&names).clone();
+        let raw = match g.below(3) {
+            0 => n.to_lowercase(),
+            1 => format!("{}_rec", n.to_lowercase()),
+            _ => format!("{}-rec", n.to_lowercase()),
+        };
+        if !names.iter().any(|m| crate::gen::names::sanitize_like(m, true) == crate::gen::names::sanitize_like(&raw, true) && m != &n) {
+            let text = doc.to_string().replace(&format!("\"#/definitions/{n}\""), &format!("\"#/definitions/{raw}\""));
+            let mut d2: Value = serde_json::from_str(&text).unwrap();
+            if let Some(defs) = d2.get_mut("definitions").and_then(|d| d.as_object_mut()) {
+                if let Some(v) = defs.remove(&n) {
+                    defs.insert(raw.clone(), v);
+                }
+            }
+            doc = d2;
+        }
+    }
     let mut comps = components(&doc);
     g.shuffle(&mut comps);
     // group the components into 1..k calls
@@ -96,6 +116,14 @@ pub fn gen_c16_case(g: &mut G) -> Value {
         // object is a caller error: typify cannot name the struct)
         let hint = if hint.is_none() && schema.get("type") == Some(&json!("object")) || (hint.is_none() && schema.get("enum").is_some()) { Some(format!("Hint{i}")) } else { hint };
         type_steps.push(json!({"op": "type", "schema": schema, "hint": hint}));
+    }
+    if g.chance(1, 3) {
+        // the schema of an existing definition added again under that definition's name
+        let n = g.pick(&names).clone();
+        let schema = doc["definitions"][&n].clone();
+        if schema.get("$ref").is_none() {
+            type_steps.push(json!({"op": "type", "schema": schema, "hint": n}));
+        }
     }
     history.extend(type_steps.clone());
     // repeats of earlier add_type steps
